@@ -250,22 +250,31 @@ def run_fine_case(case: Dict[str, Any]) -> Dict[str, Any]:
                            "wexc": None, "fired": 0, "audit": []}
     tmps: List[Any] = []
     try:
-        md = E["LoggingMetadata"]()
-        dc = dcm.DataCollection("c", base, "run", md)
-        ctl.names[id(dc.write_to_disk)] = "td"
-        ctl.names[id(dc.write_finished)] = "fin"
-        ctl.wait_arrival()
-        GDS = _mk_gds(E, ctl)
         dsets = []
-        for i, d in enumerate(case["ds"]):
-            types = [2147483647] if d["types"] == "A" else [D.TYPE_IDS[t] for t in d["types"]]
-            ds = GDS.__new__(GDS)
-            object.__setattr__(ds, "_vi", i)
-            ds.__init__("c", f"ds{i}", f"ds{i}", "f", E["get_formatter"](d["fmt"]), d["interval"], types, md)
-            tmps.append(getattr(ds.formatter, "data_tmp", None))      # placeholder formatter of __init__
-            dc.add_data_set(ds)
-            dsets.append(ds)
-        dc.start()
+        try:      # set-up: an exception of the code under test is an observation, never a crash of the harness
+            md = E["LoggingMetadata"]()
+            dc = dcm.DataCollection("c", base, "run", md)
+            ctl.names[id(dc.write_to_disk)] = "td"
+            ctl.names[id(dc.write_finished)] = "fin"
+            if ctl.started:
+                ctl.wait_arrival()
+            GDS = _mk_gds(E, ctl)
+            for i, d in enumerate(case["ds"]):
+                types = [2147483647] if d["types"] == "A" else [D.TYPE_IDS[t] for t in d["types"]]
+                ds = GDS.__new__(GDS)
+                object.__setattr__(ds, "_vi", i)
+                ds.__init__("c", f"ds{i}", f"ds{i}", "f", E["get_formatter"](d["fmt"]), d["interval"], types, md)
+                tmps.append(getattr(ds.formatter, "data_tmp", None))      # placeholder formatter of __init__
+                dc.add_data_set(ds)
+                dsets.append(ds)
+            dc.start()
+        except C.MachineryError:
+            raise
+        except Exception as e:  # noqa: BLE001
+            obs["status"] = "raise:" + type(e).__name__
+            obs["rexc"] = "during set-up (constructors / add_data_set / start): " + repr(e)
+            obs["wdead"] = 1 if ctl.at.get("W") == "finished" else 0
+            return obs
         msgs: Dict[int, Any] = {}
         keys: Dict[Tuple[bytes, bytes], int] = {}
         hkeys: Dict[bytes, int] = {}
@@ -331,7 +340,7 @@ def run_fine_case(case: Dict[str, Any]) -> Dict[str, Any]:
         for i, d in enumerate(case["ds"]):
             ddir = os.path.join(base, "run", f"ds{i}")
             names = sorted(os.listdir(ddir)) if os.path.isdir(ddir) else []
-            ext = dsets[i].formatter_cls.ext
+            ext = E["get_formatter"](d["fmt"]).ext
             ordered = [n for n in names if n == "f" + ext] + sorted(n for n in names if n != "f" + ext)
             flist = []
             blist = []
@@ -353,7 +362,7 @@ def run_fine_case(case: Dict[str, Any]) -> Dict[str, Any]:
             obs["files"].append(flist)
             obs.setdefault("fbytes", []).append(blist)
     finally:
-        ctl.abort = ctl.at.get("R") != "finished"
+        ctl.abort = "R" in ctl.at and ctl.at["R"] != "finished"      # R was started and is parked inside an operation
         if ctl.abort:
             ctl.go["R"].release()
             ctl.wait_arrival()
@@ -361,10 +370,11 @@ def run_fine_case(case: Dict[str, Any]) -> Dict[str, Any]:
         ctl.free = True
         if dc is not None:
             dc._close = True
-            if ctl.at.get("W") != "finished":
+            if ctl.started and ctl.at.get("W") != "finished":
                 ctl.go["W"].release()
             try:
-                dc.write_thread.join(10)
+                if getattr(dc, "write_thread", None) is not None:
+                    dc.write_thread.join(10)
                 for ds in dc.datasets:
                     for obj in (ds, getattr(ds.formatter, "data_tmp", None)):
                         try:
